@@ -35,6 +35,10 @@ chk("C04",
     "Bounded-exhaustive model checking of ExprLexer/ExprParser: every token sequence of length <=5 (thorough 6) over a 22-token alphabet with all whitespace interleavings for short sequences, every character string of length <=5 (thorough 6) over the 26 lexically relevant characters, and a numeric sub-enumeration up to the 32/64-bit boundaries, each compared with a reference tokeniser and grammar written from the documented language (accept/reject, normalised tree = precedence, literal values, lower-casing, end offset, single error with offset inside the text); short sequences also through Linter.Lint in run: and bare if: positions.",
     "Sentences longer than the bounds are not explored (the 'randomly beyond the bound' part of the quantifier is not claimed); token classes are represented by one spelling each in the token enumeration; appendix-A don't-care classes are not compared." + OVERLAY_NOTE,
     "exhaustive enumeration of all token sequences / character strings up to a length bound vs reference grammar")
+chk("C07",
+    "Complete enumeration of a placement product against an absolute position oracle: 12 expression constructs (lexer, parser, semantic at first and inner token, untrusted input, availability, bare if:) x extra indentation 0-4 x lines above 0-3 x block/flow style x plain/single/double quoting x prefix text 0-5 x preceding placeholders 0-2 x spaces after ${{ 0-3 (about 65k workflows), plus key (unexpected, duplicate), enum/shell/permission value and glob-character constructs x placements; the generator records the line:column of the offending token and the real Linter's diagnostic must carry exactly it (shift-invariance follows since all shifts are enumerated). Also: every non-YAML-level diagnostic over positions x fragments of the seeds has 1 <= line <= #lines and column >= 1.",
+    "One-line ASCII scalars without escape sequences only (as the property states); constructs are a fixed catalogue of 12 + 9." + OVERLAY_NOTE,
+    "complete enumeration of a finite placement product vs generator-recorded positions")
 chk("C10",
     "Stateless model checking of the real Linter.LintFiles under a controlled scheduler: 6 scenarios (shared local action, caller+callee reusable workflow with AST- vs file-derived interface, sibling and nested repositories with different configurations, messages built from shared slices, broken shared callees, -format) x every subset and argument order of the files x semaphore size {1,2} x all interleavings up to 2 preemptions (thorough 3); oracle: per-file diagnostics equal LintFile alone on a fresh Linter, defects of a shared callee exactly once per run, deep fingerprint of all package-level tables and every Config unchanged (AllWebhookTypes at every scheduling point), no deadlock.",
     "Data races proper are outside a cooperative scheduler's reach: the 'no data races' clause is only supported by the modification monitor plus a separate free-running -race pass, not decided. GOMAXPROCS is subsumed by interleavings under data-race freedom. Scenarios are a fixed catalogue of 6 drivers." + OVERLAY_NOTE,
